@@ -76,6 +76,8 @@ class Recorder:
         # run-level extensions (harness/run/observe.py); the defaults keep the sched-level record shapes
         self.thread_namer = None   # callable -> small int of the current thread: `start` records become ["start", t, worker]
         self.verbose = False       # `mode` records carry the skip reason: ["mode", t, "run"|"skip", reason|None]
+        self.start_gate = None     # callable(task) -> gate key | None: a worker that has just started handling `task` waits at
+                                   # that gate BEFORE anything of the task runs (lets a strategy reorder the STARTS of tasks)
 
     # ---- ids -------------------------------------------------------------------------------
     def tid(self, task):
@@ -257,6 +259,9 @@ def patched(rec):
                 rec._local.mode_for = None
                 rec._start(k)
                 try:
+                    key = rec.start_gate(task) if rec.start_gate is not None else None
+                    if key is not None:
+                        rec.gate(key)
                     return func(*a, **kw)
                 except BaseException as e:
                     with rec.cv:
